@@ -163,29 +163,29 @@ type Report struct {
 
 // Rec is one executed operation with its result.
 type Rec struct {
-	Task     int    `json:"task"`
-	Ix       int    `json:"ix"`
-	Op       Op     `json:"op"`
-	Call     uint64 `json:"call"`
-	Ret      uint64 `json:"ret"`
-	Pending  bool   `json:"pending,omitempty"`
-	Val      int64  `json:"val"`
-	Ok       bool   `json:"ok"`
-	Exp      int64  `json:"exp,omitempty"`
-	TTL      int64  `json:"ttl,omitempty"`
-	FnCalls  int    `json:"fn_calls,omitempty"`
-	FnOld    int64  `json:"fn_old,omitempty"`
-	FnLoaded bool   `json:"fn_loaded,omitempty"`
-	FnSeq    uint64 `json:"fn_seq,omitempty"`
-	Visits   []KV   `json:"visits,omitempty"`
-	N        int    `json:"n,omitempty"`
-	Steps    int    `json:"steps,omitempty"` // own synchronisation steps
-	Waits    int    `json:"waits,omitempty"` // times the caller joined a wait set
-	Spins    int    `json:"spins,omitempty"` // Gosched calls
-	Now      int64  `json:"now,omitempty"`   // virtual time at call
-	NowRet   int64  `json:"now_ret,omitempty"` // virtual time at return (differs only when the clock ticks inside a phase)
-	Nested   bool   `json:"nested,omitempty"`
-	CBID     int    `json:"cbid,omitempty"` // callback id installed by this op
+	Task     int     `json:"task"`
+	Ix       int     `json:"ix"`
+	Op       Op      `json:"op"`
+	Call     uint64  `json:"call"`
+	Ret      uint64  `json:"ret"`
+	Pending  bool    `json:"pending,omitempty"`
+	Val      int64   `json:"val"`
+	Ok       bool    `json:"ok"`
+	Exp      int64   `json:"exp,omitempty"`
+	TTL      int64   `json:"ttl,omitempty"`
+	FnCalls  int     `json:"fn_calls,omitempty"`
+	FnOld    int64   `json:"fn_old,omitempty"`
+	FnLoaded bool    `json:"fn_loaded,omitempty"`
+	FnSeq    uint64  `json:"fn_seq,omitempty"`
+	Visits   []KV    `json:"visits,omitempty"`
+	N        int     `json:"n,omitempty"`
+	Steps    int     `json:"steps,omitempty"`   // own synchronisation steps
+	Waits    int     `json:"waits,omitempty"`   // times the caller joined a wait set
+	Spins    int     `json:"spins,omitempty"`   // Gosched calls
+	Now      int64   `json:"now,omitempty"`     // virtual time at call
+	NowRet   int64   `json:"now_ret,omitempty"` // virtual time at return (differs only when the clock ticks inside a phase)
+	Nested   bool    `json:"nested,omitempty"`
+	CBID     int     `json:"cbid,omitempty"`  // callback id installed by this op
 	Ticks    []int64 `json:"ticks,omitempty"` // Advance: the instants at which a janitor tick was delivered
 }
 
@@ -212,14 +212,14 @@ func (r *Rec) String() string {
 
 // World is the execution context shared by the tasks of one run.
 type World struct {
-	rearms int // re-arming callback invocations (CBKind 5)
-	sim     *simrt.Sim
-	m       MapAPI
-	c       CacheAPI
-	recs    []*Rec // all operation records in invocation order
-	reports []Report
-	cbSeq   int
-	curCB   int
+	rearms    int // re-arming callback invocations (CBKind 5)
+	sim       *simrt.Sim
+	m         MapAPI
+	c         CacheAPI
+	recs      []*Rec // all operation records in invocation order
+	reports   []Report
+	cbSeq     int
+	curCB     int
 	slowDone  bool  // the slow callback (kind 3) has stalled once
 	cbAtCtor  int   // id of the callback installed at construction (0: none)
 	defAtCtor int64 // default TTL in force after construction
@@ -236,7 +236,7 @@ func (w *World) seq() uint64 {
 // visited pair only (not of the visiting order, which legitimately differs
 // between bucket layouts), so that twin and sibling instances stay comparable.
 func derivedVal(k int, v int64) int64 { return 1000000 + (v*31+int64(k))%8000000 }
-func derivedKey(k int) int           { return freshBase + k%997 }
+func derivedKey(k int) int            { return freshBase + k%997 }
 
 func (w *World) curTaskID() int {
 	if t := simrt.CurTask(); t != nil {
